@@ -201,6 +201,10 @@ class Lic:
         self.stale_zero = stale_zero
         self.key_bits = key_bits or {}
         self.zero_then_assigned = self._zero_then_assigned() if stale_zero else set()
+        self.mask_only_keys = set()
+        if stale_zero == 'mask':
+            self.zero_then_assigned = self._mask_gated_placeholders()
+            self.mask_only_keys = {'v:' + d for d in self.zero_then_assigned}
         if fn.cfg:
             self._solve()
 
@@ -223,6 +227,79 @@ class Lic:
                     if any(fn.nodes[a]['k'] == 'IfStmt' for a in fn.ancestors(i)):
                         out.add(ln['d'])
         return out
+
+    def _mask_gated_placeholders(self):
+        """float locals declared with a literal placeholder (`= 0`) whose every later assignment is on paths that
+        establish at least one bit of an incoming mask: the placeholder is what a caller gets who did not
+        request those bits, so it must never reach a sink on a path that does not establish them (rule M7)."""
+        fn = self.fn
+        cand = self._zero_then_assigned_any()
+        out = set()
+        for d, sites in cand.items():
+            ok = bool(sites)
+            for i in sites:
+                if not self._under_mask_test(i):
+                    ok = False
+                    break
+            if ok:
+                out.add(d)
+        return out
+
+    def _under_mask_test(self, nid):
+        """is node nid nested in at least one if whose condition is a pure test of mask bits (x & CONST), and in
+        no other conditional construct?  (a placeholder that is also governed by a data condition - the
+        `somg12 == 2` sentinel protocol - is not decided by this rule)"""
+        fn = self.fn
+        child = nid
+        found = False
+        for a in fn.ancestors(nid):
+            an = fn.nodes[a]
+            k = an['k']
+            if k in ('ForStmt', 'WhileStmt', 'DoStmt', 'SwitchStmt', 'ConditionalOperator', 'CXXForRangeStmt'):
+                return False
+            if k == 'IfStmt' and child != an.get('cond'):
+                in_then = an.get('then', -1) >= 0 and (child == an['then'])
+                pure = True
+                has_and = False
+                for j in fn.walk(an['cond']):
+                    jn = fn.nodes[j]
+                    if jn['k'] == 'BinaryOperator' and jn.get('op') == '&':
+                        has_and = True
+                    if jn['k'] == 'DeclRefExpr' and 'cv' not in jn and jn.get('rk') in ('param', 'local') and \
+                            'unsigned' not in jn.get('t', ''):
+                        pure = False
+                    if jn['k'] in ('MemberExpr', 'CallExpr', 'CXXMemberCallExpr') and 'cv' not in jn:
+                        pure = False
+                if not (pure and has_and and in_then):
+                    return False
+                found = True
+            child = a
+        return found
+
+    def _zero_then_assigned_any(self):
+        fn = self.fn
+        zero = {}
+        for i, n in fn.all_nodes():
+            if n['k'] == 'DeclStmt':
+                for d in n['decls']:
+                    if d.get('init', -1) >= 0 and d['t'].replace('const ', '') in ('double', 'float', 'long double'):
+                        init = fn.nodes[fn.strip_casts(d['init'])]
+                        if init['k'] in ('IntegerLiteral', 'FloatingLiteral') and float(init['v']) == 0:
+                            zero[d['d']] = []
+        for i, n in fn.all_nodes():
+            if n['k'] in ('BinaryOperator', 'CompoundAssignOperator') and n.get('op') in ASSIGN_OPS:
+                ln = fn.nodes[fn.strip(n['ch'][0])]
+                if ln['k'] == 'DeclRefExpr' and ln.get('d') in zero:
+                    zero[ln['d']].append(i)
+            elif n.get('callee') and n.get('args'):
+                pk = (n['callee'] or {}).get('pk', [])
+                off = 1 if (n.get('ckind') == 'operator' and n['callee'].get('method')) else 0
+                for ai, a in enumerate(n['args'][off:]):
+                    if ai < len(pk) and pk[ai] in ('r', 'p'):
+                        an = fn.nodes[fn.strip(a)]
+                        if an['k'] == 'DeclRefExpr' and an.get('d') in zero:
+                            zero[an['d']].append(i)
+        return zero
 
     # ------------------------------------------------------------------ state helpers
     def U(self, st, key):
@@ -630,6 +707,12 @@ class Lic:
             open_ = frozenset(c for c in u if DECL in c)
             rest = frozenset(c for c in u if DECL not in c)
             r2 = rel
+            if key in self.mask_only_keys:
+                # a mask-gated placeholder: only the mask bits say whether the caller asked for it
+                r2 = merge_complementary(frozenset(frozenset(l for l in c if l[0].startswith('b:')) for c in rel))
+                if frozenset() in r2 or not r2:
+                    out[key] = u
+                    continue
             bits = self.key_bits.get(key)
             if bits is not None:
                 # only the mask bits that gate this cell matter for it; other bits would just multiply cases
